@@ -42,8 +42,13 @@ def run_block_ops(desc, ops):
             elif op[0] == 'get':
                 outs.append(as_nat_list(b.getValues(op[1], op[2])))
             elif op[0] == 'set':
-                b.setValues(op[1], list(op[2]))
-                outs.append(None)
+                vals = list(op[2])
+                b.setValues(op[1], vals)
+                # the block must hold its own cells: changing the caller's list afterwards must not reach into it
+                d0 = dump_block(b)
+                for i in range(len(vals)):
+                    vals[i] = 1 - vals[i] if vals[i] in (0, 1) else (vals[i] + 1) % 65536
+                outs.append(None if dump_block(b) == d0 else 'aliases-the-callers-list')
             elif op[0] == 'reset':
                 b.reset()
                 outs.append(None)
@@ -123,6 +128,10 @@ def check_block_cases(ctx, rep, cases):
         for i, s in enumerate(so):
             if ops[i][0] == 'dump':
                 continue
+            if outs[i] == 'aliases-the-callers-list':
+                rep.violation('after setValues the block shares storage with the list the caller passed: a later change of '
+                              'that list changes cells of the block', case, op_index=i)
+                break
             if outs[i] != s:
                 rep.violation('block operation result differs from the partial-map spec', case,
                               finding=kf_block(desc, ops[:i + 1], outs[i]), op_index=i, impl=outs[i], spec=s)
